@@ -64,6 +64,7 @@ const KNOWN_RULES: &[&str] = &[
     "opt_map",
     "spawn_drop",
     "iter_loop",
+    "alloc_reserve",
 ];
 
 pub fn apply(repo: &str, req: &ItemReq, f: &mut FnUnderEdit) -> Result<(), String> {
@@ -220,6 +221,12 @@ pub fn apply(repo: &str, req: &ItemReq, f: &mut FnUnderEdit) -> Result<(), Strin
         f.fire("mut_self", n);
     }
 
+    if has("alloc_reserve") {
+        let mut v = AllocReserve { n: 0 };
+        v.visit_block_mut(&mut f.block);
+        let n = v.n;
+        f.fire("alloc_reserve", n);
+    }
     // R19 vec![0; n] -> vx_alloc_zeroed(n)
     if has("vec_alloc") {
         let mut v = VecAlloc { n: 0 };
@@ -802,6 +809,35 @@ impl VisitMut for VecAlloc {
                         *e = syn::parse_quote!(vx_alloc_zeroed(#len));
                         self.n += 1;
                     }
+                }
+            }
+        }
+    }
+}
+/// R19b (rule `alloc_reserve`, enabled on decoding paths only)
+struct AllocReserve {
+    n: usize,
+}
+impl VisitMut for AllocReserve {
+    fn visit_expr_mut(&mut self, e: &mut syn::Expr) {
+        visit_mut::visit_expr_mut(self, e);
+        // capacity requests: `v.reserve(n)`, `v.try_reserve(n)`, `v.reserve_exact(n)`, `v.try_reserve_exact(n)` -> `v.vx_<name>(n)`
+        // and `Vec::with_capacity(n)` -> `vx_with_capacity(n)`: same operation, but the stub carries the C04 allocation bound
+        if let syn::Expr::MethodCall(m) = e {
+            let name = m.method.to_string();
+            if ["reserve", "try_reserve", "reserve_exact", "try_reserve_exact"].contains(&name.as_str()) && m.args.len() == 1 {
+                m.method = syn::Ident::new(&format!("vx_{name}"), m.method.span());
+                self.n += 1;
+            }
+        }
+        if let syn::Expr::Call(c) = e {
+            if let syn::Expr::Path(p) = &*c.func {
+                let t = norm(&p.path);
+                if (t == "Vec::with_capacity" || t.starts_with("Vec::<") && t.ends_with(">::with_capacity")) && c.args.len() == 1 {
+                    let a = &c.args[0];
+                    *e = syn::parse_quote!(vx_with_capacity(#a));
+                    self.n += 1;
+                    return;
                 }
             }
         }
